@@ -270,9 +270,13 @@ found the single old pack already optimally packed (same content hash) and
 aborted (CHK packer only); `clean` = `clean_obsolete_packs`.
 `_already_packed()` = `not (format.pack_compresses or len(names) > 1)` returns
 before anything is done (`pack_compresses` is true exactly for the CHK format
-2a, i.e. `chk`).  If the new pack's name is already in the collection
-(`allocate` raises "Pack … already exists") the operation stops after
-`finish()`. -/
+2a, i.e. `chk`).  `optimal` also covers `KnitPacker`'s guard (fix 24f6bb3):
+the repacked content hashes to a name that is already listed, the new pack is
+aborted.  The branch "the new pack's name is already in the collection"
+(`finish()` onto the listed pack, then `allocate` raises "Pack … already
+exists" and nothing is saved) describes what a packer WITHOUT such a guard
+does; the guards make it unreachable and the theorems exclude it by the
+freshness hypothesis. -/
 def packOpsSel (chk : Bool) (d : Disk) (v : View) (s : List Nat) (optimal clean : Bool)
     (tmp1 new1 : Nat) : List Op :=
   if !chk && v.names.length ≤ 1 then []
